@@ -310,4 +310,40 @@ theorem degree_eq_typed_length (s : State) (T : Tier) (n ty : Nat) :
           (typeMatches_filter s p.2 ty).mpr ⟨tid, h2, by simpa using hc⟩
         rw [hb] at this; cases this
 
+/-! ### lookups that find nothing; what node creation does to the point reads -/
+
+theorem colGet_none {c : List ((Nat × Nat) × Nat)} {r k : Nat} (h : ∀ p ∈ c, p.1.1 ≠ r) :
+    colGet c r k = none := by
+  unfold colGet
+  rw [List.find?_eq_none.mpr]
+  · rfl
+  · intro p hp hb
+    simp only [beq_iff_eq] at hb
+    exact h p hp (by rw [hb])
+
+theorem assocGet_none {β : Type} {m : List (Nat × β)} {k : Nat} (h : ∀ p ∈ m, p.1 ≠ k) :
+    assocGet m k = none := by
+  unfold assocGet
+  rw [List.find?_eq_none.mpr]
+  · rfl
+  · intro p hp hb
+    simp only [beq_iff_eq] at hb
+    exact h p hp hb
+
+theorem createNode_reads (s : State) (l : Nat) (ps : Props) :
+    (∀ n, getNode (createNode s l ps).1 n
+        = if n = (allocN s).1 then some { labels := [l], props := ps } else getNode s n)
+    ∧ (createNode s l ps).2 = .id (allocN s).1
+    ∧ (∀ e, endpOf (createNode s l ps).1 e = endpOf s e) := by
+  unfold createNode allocN
+  cases s.freeN with
+  | nil =>
+    refine ⟨fun n => ?_, rfl, fun e => rfl⟩
+    show (setGrow s.nodes s.nextN _ none).getD n none = _
+    rw [getD_setGrow]; rfl
+  | cons i rest =>
+    refine ⟨fun n => ?_, rfl, fun e => rfl⟩
+    show (setGrow s.nodes i _ none).getD n none = _
+    rw [getD_setGrow]; rfl
+
 end SgModel.Store
